@@ -1258,6 +1258,24 @@ def GENSW(ctx):
         ctx.case(line, True, "gen:set_vt")
 
 
+def GENGZ(ctx):
+    """validation of the translator on dsw/graphized.py: obtain_latters / obtain_formers / get_complete_accessor as
+    GENERATED (DswModel.Gen.Graphized) against the real functions."""
+    rng = ctx.rng
+    if not _gen_current(ctx, "graphized"):
+        return
+    for it in range(ctx.n(300, 6000)):
+        k = rng.choice([1, 1, 2, 3, 4, 5, 8, 12])
+        v = rng.choice([0, 4 ** k - 1, rng.randrange(4 ** k), rng.randrange(4 ** k)])
+        ctx.corr("gen obtain_latters i%d i%d" % (v, k))
+        ctx.corr("gen obtain_formers i%d i%d" % (v, k))
+        ctx.case("gz %d %d" % (k, v), True, "gen:graphized")
+    if ctx.part == 0:
+        for k in (0, 1, 2, 3, 4):
+            ctx.corr("gen get_complete_accessor i%d %s" % (k, "bT" if k % 2 else "bF"))
+        ctx.corr("gen obtain_latters i5 i0")
+
+
 def C16(ctx):
     rng = ctx.rng
 
